@@ -40,7 +40,7 @@ theorem Step.foldM_mem {σ α β} {R : Rel σ} {f : β → α → M σ β} {l : 
 
 /-- the primitive table operations as the block at height `h` uses them -/
 structure PrimsOK (P : Params) (h : Nat) (R : Rel DB) (Auth : Addr → Prop := fun _ => True)
-    (AuthT : HistTx → Prop := fun _ => True) : Prop where
+    (AuthT : HistTx → Prop := fun _ => True) (AuthH : Prop := True) : Prop where
   addBal : ∀ a t v, Step R (addBal P a t v)
   /-- `SubFromBalance` has to respect `R` only for the addresses the block is entitled to debit -/
   subBal : ∀ a t v, Auth a → Step R (subBal P a t v)
@@ -55,7 +55,8 @@ structure PrimsOK (P : Params) (h : Nat) (R : Rel DB) (Auth : Addr → Prop := f
   setConvertedAmount : ∀ hash i a, Step R (setConvertedAmount hash i a)
   setPegConverted : ∀ hash i a o, Step R (setPegConverted hash i a o)
   insertRelation : ∀ hash a i t c, Step R (insertRelation hash a i t c)
-  insertHolding : ∀ e keymr, Step R (insertHolding { entry := e, height := h, keymr := keymr })
+  /-- likewise for the holding row, which follows the batch row of its entry (`HistComps.hold`) -/
+  insertHolding : ∀ e keymr, AuthH → Step R (insertHolding { entry := e, height := h, keymr := keymr })
   insertBank : ∀ a, Step R (insertBank h a)
   updateBank : ∀ bh u r, Step R (updateBank bh u r)
   insertGrade : ∀ keymr sh v c n, Step R (insertGrade { height := h, keymr := keymr, shorthashes := sh, version := v, cutoff := c, count := n })
@@ -65,7 +66,7 @@ structure PrimsOK (P : Params) (h : Nat) (R : Rel DB) (Auth : Addr → Prop := f
   touch : Step R (M.guarded (fun _ => none) fun db => { db with avgTouched := true })
 
 section
-variable {P : Params} {h : Nat} {R : Rel DB} {Auth : Addr → Prop} {AuthT : HistTx → Prop} (ok : PrimsOK P h R Auth AuthT)
+variable {P : Params} {h : Nat} {R : Rel DB} {Auth : Addr → Prop} {AuthT : HistTx → Prop} {AuthH : Prop} (ok : PrimsOK P h R Auth AuthT AuthH)
 include ok
 
 /-- bring every primitive fact into the local context (for `apply_assumption`) -/
@@ -187,7 +188,8 @@ theorem recordHistory_step (hT : ∀ r, AuthT r) (bo : Nat) (e : TxEntry) : Step
 
 theorem applyTxEntry_stepA (keymr : String) (bo : Nat) (e : TxEntry)
     (ha : e.validAt P h = true → ∀ t ∈ e.txs, Auth t.inAddr) (hlog : ∀ x, Step R (logExec x))
-    (hrec : ∀ bo e, Step R (recordHistory P h bo e)) :
+    (hrec : ∀ bo e, Step R (recordHistory P h bo e))
+    (hhold : ∀ keymr bo e, Step R (recordHistory P h bo e >>= fun _ => insertHolding { entry := e, height := h, keymr := keymr })) :
     Step R (applyTxEntry P h keymr bo e) := by
   prims ok
   have c1 := hrec
@@ -200,15 +202,20 @@ theorem applyTxEntry_stepA (keymr : String) (bo : Nat) (e : TxEntry)
       simp only [Bool.and_eq_true] at hc
       exact hc.1.1
     have c2 := applyBatch_stepA ok e none none (ha hv) hlog
-    step_tac
+    by_cases hconv : e.hasConversions P = true
+    · simp only [hconv, if_true]
+      exact hhold keymr bo e
+    · simp only [hconv, Bool.false_eq_true, if_false]
+      step_tac
   · exact Step.pure _
 
 theorem applyTransactionBlock_stepA (keymr : String) (es : List TxEntry)
     (ha : ∀ e ∈ es, e.validAt P h = true → ∀ t ∈ e.txs, Auth t.inAddr) (hlog : ∀ x, Step R (logExec x))
-    (hrec : ∀ bo e, Step R (recordHistory P h bo e)) :
+    (hrec : ∀ bo e, Step R (recordHistory P h bo e))
+    (hhold : ∀ keymr bo e, Step R (recordHistory P h bo e >>= fun _ => insertHolding { entry := e, height := h, keymr := keymr })) :
     Step R (applyTransactionBlock P h keymr es) := by
   unfold applyTransactionBlock
-  exact Step.forEachIdx_mem (fun i e he => applyTxEntry_stepA ok keymr i e (ha e he) hlog hrec)
+  exact Step.forEachIdx_mem (fun i e he => applyTxEntry_stepA ok keymr i e (ha e he) hlog hrec hhold)
 
 theorem applyHeld_stepA (rates avgs : TMap) (e : TxEntry)
     (ha : e.validAt P h = true → ∀ t ∈ e.txs, Auth t.inAddr) (hlog : ∀ x, Step R (logExec x)) :
@@ -275,18 +282,20 @@ structure HistComps (P : Params) (h : Nat) (R : Rel DB) : Prop where
   snap : ∀ ts rates order, Step R (snapshotPayouts P h ts rates order)
   dev : ∀ ts, Step R (developersPayouts P h ts)
   hist : ∀ bo e, Step R (recordHistory P h bo e)
+  hold : ∀ keymr bo e, Step R (recordHistory P h bo e >>= fun _ => insertHolding { entry := e, height := h, keymr := keymr })
   fct : ∀ rcd fcts, Step R (applyFactoidBlock P h rcd fcts)
   opr : ∀ oh ts ws, Step R (applyGradedOPR P oh ts ws)
   spr : ∀ oh ts ws, Step R (applyGradedSPR P oh ts ws)
 
-theorem histComps_of_prims {P : Params} {h : Nat} {R : Rel DB} {Auth : Addr → Prop} {AuthT : HistTx → Prop}
-    (ok : PrimsOK P h R Auth AuthT) (hT : ∀ r, AuthT r) : HistComps P h R :=
+theorem histComps_of_prims {P : Params} {h : Nat} {R : Rel DB} {Auth : Addr → Prop} {AuthT : HistTx → Prop} {AuthH : Prop}
+    (ok : PrimsOK P h R Auth AuthT AuthH) (hT : ∀ r, AuthT r) (hH : AuthH) : HistComps P h R :=
   ⟨insertZeroingCoinbase_step ok hT, snapshotPayouts_step ok hT, developersPayouts_step ok hT, recordHistory_step ok hT,
+   fun keymr bo e => Step.bind (recordHistory_step ok hT bo e) (fun _ => PrimsOK.insertHolding ok e keymr hH),
    applyFactoidBlock_step ok hT, applyGradedOPR_step ok hT, applyGradedSPR_step ok hT⟩
 
 /-! ### the block -/
 
-theorem gradeAndRates_step {P : Params} {R : Rel DB} {Auth : Addr → Prop} {AuthT : HistTx → Prop} (c : DB) (b : Block) (ok : PrimsOK P b.height R Auth AuthT) :
+theorem gradeAndRates_step {P : Params} {R : Rel DB} {Auth : Addr → Prop} {AuthT : HistTx → Prop} {AuthH : Prop} (c : DB) (b : Block) (ok : PrimsOK P b.height R Auth AuthT AuthH) :
     Step R (gradeAndRates P c b) := by
   have c1 := insertGradeBlock_step ok
   have c2 := insertRates_step ok
@@ -311,8 +320,8 @@ theorem authOK_true (P : Params) {R : Rel DB} (hlog : ∀ x, Step R (logExec x))
   ⟨hlog, hc, fun _ _ _ _ _ _ _ => trivial, fun _ _ _ _ _ => trivial, fun _ => trivial, fun _ => trivial⟩
 
 section
-variable {P : Params} {R : Rel DB} {Auth : Addr → Prop} {AuthT : HistTx → Prop} (c : DB) (b : Block) (avgs : TMap)
-  (ok : PrimsOK P b.height R Auth AuthT) (au : AuthOK P R Auth c b)
+variable {P : Params} {R : Rel DB} {Auth : Addr → Prop} {AuthT : HistTx → Prop} {AuthH : Prop} (c : DB) (b : Block) (avgs : TMap)
+  (ok : PrimsOK P b.height R Auth AuthT AuthH) (au : AuthOK P R Auth c b)
 include ok
 
 theorem sprPanicCheck_step : Step R (sprPanicCheck b) := by
@@ -369,7 +378,7 @@ theorem txBlockPhase_stepA : Step R (txBlockPhase P b) := by
   unfold txBlockPhase
   split
   · rename_i es hes
-    exact applyTransactionBlock_stepA ok b.txKeymr es (au.txs es hes) au.log au.comps.hist
+    exact applyTransactionBlock_stepA ok b.txKeymr es (au.txs es hes) au.log au.comps.hist au.comps.hold
   · exact Step.pure _
 
 theorem txPhase_stepA (ra : Bool) : Step R (txPhase P c b avgs ra) := by
@@ -435,8 +444,10 @@ theorem nullifyBurn_step (c : DB) (hh : Nat) (ts : Int) : Step R (nullifyBurn P 
 include hlog
 theorem applyTxEntry_step (keymr : String) (bo : Nat) (e : TxEntry) : Step R (applyTxEntry P h keymr bo e) :=
   applyTxEntry_stepA ok keymr bo e (fun _ _ _ => trivial) hlog (recordHistory_step ok (fun _ => trivial))
+    (fun keymr bo e => Step.bind (recordHistory_step ok (fun _ => trivial) bo e) (fun _ => PrimsOK.insertHolding ok e keymr trivial))
 theorem applyTransactionBlock_step (keymr : String) (es : List TxEntry) :
     Step R (applyTransactionBlock P h keymr es) := applyTransactionBlock_stepA ok keymr es (fun _ _ _ _ _ => trivial) hlog (recordHistory_step ok (fun _ => trivial))
+    (fun keymr bo e => Step.bind (recordHistory_step ok (fun _ => trivial) bo e) (fun _ => PrimsOK.insertHolding ok e keymr trivial))
 theorem applyHeld_step (rates avgs : TMap) (e : TxEntry) : Step R (applyHeld P h rates avgs e) :=
   applyHeld_stepA ok rates avgs e (fun _ _ _ => trivial) hlog
 theorem applyHolding_step (c : DB) (rates avgs : TMap) (fromH : Nat) :
@@ -450,7 +461,7 @@ variable {P : Params} {R : Rel DB} (c : DB) (b : Block) (avgs : TMap) (ok : Prim
 include ok hlog
 
 omit hlog in
-theorem histComps_std : HistComps P b.height R := histComps_of_prims ok (fun _ => trivial)
+theorem histComps_std : HistComps P b.height R := histComps_of_prims ok (fun _ => trivial) trivial
 omit hlog in
 theorem snapshotPhase_step : Step R (snapshotPhase P b) := snapshotPhase_stepC b (histComps_std b ok)
 omit hlog in
